@@ -269,8 +269,9 @@ U('C17', 'c17.div_one', 'lem_c17_div_one', 'pre_c17_small', None, lemma=True, cx
 U('C17', 'c17.div_self', 'lem_c17_div_self', 'pre_c17_small', None, lemma=True, cxx='lem_c17_div_self($1)', replace=[I2F_L, K_SHL], **INTQ)
 U('C17', 'c17.add_sub', 'lem_c17_add_sub', 'pre_c01', None, lemma=True, cxx='lem_c17_add_sub($1,$2)')
 U('C17', 'c17.assoc', 'lem_c17_assoc', 'pre_c17_3', None, lemma=True, cxx='lem_c17_assoc($1,$2,$3)')
-U('C17', 'c17.mul_step', 'lem_c17_mul_step', 'pre_c17_n', None, lemma=True, cxx='lem_c17_mul_step($1,$2)', **INTQ)
-U('C17', 'c17.mul_div', 'lem_c17_mul_div', 'pre_c17_n', None, lemma=True, cxx='lem_c17_mul_div($1,$2)', **INTQ)
+for t, ct in ITYPES:
+    U('C17', 'c17.mul_step.' + ct, 'lem_c17_mul_step_' + t, 'pre_muls_' + t, None, lemma=True, cxx='lem_c17_mul_step_%s($1,$2)' % t, **INTQ)
+    U('C17', 'c17.mul_div.' + ct, 'lem_c17_mul_div_' + t, 'pre_muls_' + t, None, lemma=True, cxx='lem_c17_mul_div_%s($1,$2)' % t, **INTQ)
 U('C17', 'c17.add_mono', 'lem_c17_add_mono', 'pre_c17_3', None, lemma=True, cxx='lem_c17_add_mono($1,$2,$3)')
 
 # ----------------------------------------------------------------------------- C13
@@ -295,7 +296,7 @@ __CPROVER_requires(k >= 0 && k <= 31 && R < (1ul << 32))
 __CPROVER_ensures(SQ[R + (1ul << k)] == SQ[R] + (R << (k + 1)) + (1ul << (2 * k)))
 __CPROVER_assigns();
 void vf_lemma_sq_zero(void)
-__CPROVER_ensures(SQ[0] == 0)
+__CPROVER_ensures(SQ[0] == 0 && SQ[1] == 1)
 __CPROVER_assigns();
 """
 SQRT_LOOP = """__CPROVER_assigns(val, pwr4, result, vf_k, vf_R)
@@ -317,6 +318,8 @@ U('C13', 'c13.abacus.loop', SQRT_ABACUS, 'pre_valid1', None, cxx='fixedmath::det
                  '((unsigned long)$1.v << 16) - SQ[__CPROVER_return_value.v] <= 2ul * (unsigned long)__CPROVER_return_value.v)'],
   prelude=SQ_PRELUDE, needs=['vf_isnan'], loop_contracts={1: SQRT_LOOP}, ghost=SQRT_GHOST, replace_raw=['vf_lemma_sq_step', 'vf_lemma_sq_zero'],
   backends=('kissat', 'z3'), timeout=600, split=True, expect_props=['loop_invariant_base', 'loop_invariant_step', 'loop_decreases'])
+U('C13', 'c13.abacus.small.bounded', SQRT_ABACUS, 'pre_c13_small', 'post_sqrt', cxx='fixedmath::detail::sqrt_abacus($1)',
+  unwind=20, backends=('kissat', 'cadical'), timeout=600, bounded='x.v < 2^14, loop unwound 20 times with unwinding assertion', note='BOUNDED (x.v < 2^14, loop unwound 20 times with unwinding assertion): real-square postcondition, not counted as the unbounded proof')
 U('C13', 'c13.pwr4', PWR4, 'pre_anyu', 'post_pwr4', cxx='fixedmath::detail::highest_pwr4_clz($1)')
 U('C13', 'c13.lem.sq_step', 'lem_sq_step', 'pre_sq_step', None, lemma=True, cxx='lem_sq_step($1,$2)', backends=('z3', 'cvc5'), timeout=300)
 U('C13', 'c13.lem.exit', 'lem_sqrt_exit', 'pre_sqrt_exit', None, lemma=True, cxx='lem_sqrt_exit($1,$2)', engine='int', timeout=300)
@@ -344,5 +347,36 @@ def c13_scan(tier, seed):
 
 
 E('C13', c13_scan)
+
+# ----------------------------------------------------------------------------- C09
+prop('C09', 'other',
+     'Proved for all inputs: sin_range returns the unique representative of x modulo 2*phi in [-phi/2, 3*phi/2] '
+     '(INT back end, every finite x), hence sin_range(x + k*2phi) == sin_range(x); sin(x + k*2phi) == sin(x) and '
+     'cos(x + k*2phi) == cos(x) exactly for |x|, |x + k*2phi| < 2^46 (INT lemmas over the real functions); sin and cos '
+     'results lie in [-1, 1] and every intermediate of the polynomial kernel is overflow-free (CBMC/kissat with '
+     'sin_range replaced by its contract). The accuracy clause |sin(x) - sin x| <= 4 ulp + r^9/9! is NOT expressible '
+     'in the contract language (no transcendental functions); it is decided by an exhaustive native enumeration of '
+     'all 823,549 raw x in [-2pi, 2pi] against long double sinl/cosl -- labelled stand-in, not proved.',
+     technique='INT back end (SMT-LIB Int) for range reduction and exact periodicity; CBMC contracts + kissat for the polynomial kernel range/UB; exhaustive native stand-in for accuracy',
+     assumptions=['glibc sinl/cosl/asinl (long double, ~1e-19) as the accuracy oracle of the stand-in'])
+SIN_RANGE = '_ZN9fixedmath6detail9sin_rangeENS_7fixed_tE'
+SIN = '_ZN9fixedmath3sinENS_7fixed_tE'
+COS = '_ZN9fixedmath3cosENS_7fixed_tE'
+K_SIN_RANGE = (SIN_RANGE, 'pre_finite1', 'post_sin_range')
+U('C09', 'c09.constants', 'lem_c09_constants', None, None, lemma=True, cxx='lem_c09_constants()')
+U('C09', 'c09.sin_range', SIN_RANGE, 'pre_finite1', 'post_sin_range', cxx='fixedmath::detail::sin_range($1)', **INTQ)
+U('C09', 'c09.sin_range.ub', SIN_RANGE, 'pre_valid1', 'post_any1', cxx='fixedmath::detail::sin_range($1)', backends=MULBE, timeout=600)
+U('C09', 'c09.range_period', 'lem_c09_range_period', 'pre_c09_per', None, lemma=True, cxx='lem_c09_range_period($1,$2)', **INTQ)
+U('C09', 'c09.sin_factors', 'lem_c09_sin_factors', 'pre_c01', None, lemma=True, cxx='lem_c09_sin_factors($1,$2)', replace=[(SIN_RANGE, 'UF', 'post_sin_range')], **INTQ)
+U('C09', 'c09.cos_period', 'lem_c09_cos_period', 'pre_c09_per', None, lemma=True, cxx='lem_c09_cos_period($1,$2)', **INTQ)
+U('C09', 'c09.sin.kernel', SIN, 'pre_finite1', 'post_unit_interval', replace=[K_SIN_RANGE], cxx='fixedmath::sin($1)', backends=MULBE, timeout=900, split=True)
+U('C09', 'c09.cos', COS, 'pre_c09_cos', 'post_unit_interval', replace=[(SIN, 'pre_finite1', 'post_unit_interval')], cxx='fixedmath::cos($1)', backends=MULBE, timeout=300)
+
+
+def c09_scan(tier, seed):
+    return _native.run_native('c09_sincos_scan', 'c09_sincos_scan.cc', 'abacus', [], label='exhaustive stand-in (not proved): accuracy clause of C09')
+
+
+E('C09', c09_scan)
 
 NOT_APPLICABLE = {}
